@@ -176,6 +176,15 @@ def run_case(acc, case):
     elif case["kind"] == "subproc":
         calls = [n for n in ast.walk(tree) if isinstance(n, ast.Call) and (_attr_chain(n.func) or "").startswith("__xonsh__.subproc_")]
         calls.sort(key=lambda n: (n.lineno, n.col_offset))
+        if case.get("outer"):
+            # outer command: pre words, the starred inject call, then the post words (string literals verbatim with their quotes, $HOME as an env lookup)
+            outer, calls = calls[0] if calls else None, calls[1:]
+            exp_outer = case["outer"]["pre"] + ["*"] + ["$" if w[:1] == "$" else w for w in case["outer"]["post"]]
+            obs_outer = [a.value if isinstance(a, ast.Constant) else "*" if isinstance(a, ast.Starred) else "$" for a in (outer.args if outer else [])]
+            acc.count("subproc_macro_in_inject_bracket")
+            if exp_outer != obs_outer:
+                acc.violation("words-around-inject-macro-differ", case, {"expected": exp_outer, "observed": obs_outer})
+                return
         obs = [[a.value if isinstance(a, ast.Constant) else ast.dump(a)[:80] for a in c.args] for c in calls[:1]]
         if obs != case["expected"]:
             rest = case.get("rest", "")
@@ -295,6 +304,15 @@ def gen_subproc(rnd):
     if rest[:1] in ("(", "[") and not bang.endswith(" "):
         bang += " "  # `!(` and `![` are single tokens: the macro marker must be separated from an opening bracket
     body = " ".join(cmd_words) + bang + rest + rnd.choice(["", " "])
+    if rnd.random() < 0.25 and rest.count("(") == rest.count(")") and "\n" not in rest:
+        # the macro inside an inject bracket of an ordinary command: the words after the inject bracket are split as usual again
+        pre = [rnd.choice(["echo", "env", "xargs"])] + [rnd.choice(["-n", "a"]) for _ in range(rnd.randint(0, 1))]
+        post = [rnd.choice(["-l", "c", "x.py", "'q r'", "$HOME"]) for _ in range(rnd.randint(0, 3))]
+        form = op + " ".join(pre) + " @$(" + body + ")" + "".join(rnd.choice([" ", "  ", "\t"]) + w for w in post) + rnd.choice(["", " "]) + cl
+        stmt = rnd.choice(["{}\n", "r = {}\n", "print({})\n"]).format(form)
+        follow = rnd.choice(FOLLOW + [""])
+        return {"kind": "subproc", "src": stmt + follow, "expected": [cmd_words + [rest.strip()]], "rest": rest, "follow": follow, "lines_before_follow": stmt.count("\n"),
+                "outer": {"pre": pre, "post": post}}
     form = op + body + cl
     stmt = rnd.choice(["{}\n", "r = {}\n", "print({})\n"]).format(form)
     follow = rnd.choice(FOLLOW + [""])
